@@ -762,6 +762,7 @@ qb_vsnprintf_deserialize_n(char *string, size_t str_len, const char *buf,
 	size_t data_pos;
 	int type_long = QB_FALSE;
 	int type_longlong = QB_FALSE;
+	int mod_pos = 0;	/* where the length modifier starts in fmt */
 	int len;
 
 	string[0] = '\0';
@@ -774,6 +775,7 @@ qb_vsnprintf_deserialize_n(char *string, size_t str_len, const char *buf,
 	for (;;) {
 		type_long = QB_FALSE;
 		type_longlong = QB_FALSE;
+		mod_pos = 0;
 		if (location >= str_len) {
 			/* output truncated, nothing more fits */
 			string[str_len - 1] = '\0';
@@ -843,6 +845,9 @@ reprocess:
 			goto reprocess;
 		}
 		case 'l':
+			if (mod_pos == 0) {
+				mod_pos = fmt_pos;
+			}
 			fmt[fmt_pos++] = *format;
 			format++;
 			type_long = QB_TRUE;
@@ -852,6 +857,9 @@ reprocess:
 			}
 			goto reprocess;
 		case 'z':
+			if (mod_pos == 0) {
+				mod_pos = fmt_pos;
+			}
 			fmt[fmt_pos++] = *format;
 			format++;
 			if (sizeof(size_t) == sizeof(long long)) {
@@ -863,6 +871,9 @@ reprocess:
 			}
 			goto reprocess;
 		case 't':
+			if (mod_pos == 0) {
+				mod_pos = fmt_pos;
+			}
 			fmt[fmt_pos++] = *format;
 			format++;
 			if (sizeof(ptrdiff_t) == sizeof(long long)) {
@@ -872,6 +883,9 @@ reprocess:
 			}
 			goto reprocess;
 		case 'j':
+			if (mod_pos == 0) {
+				mod_pos = fmt_pos;
+			}
 			fmt[fmt_pos++] = *format;
 			format++;
 			if (sizeof(intmax_t) == sizeof(long long)) {
@@ -975,6 +989,15 @@ reprocess:
 			}
 		case 's':
 			{
+			/*
+			 * Bytes were stored, whatever the format said: with
+			 * an "l" printf would take them for wide characters
+			 * and look for a wide terminator, four bytes at a
+			 * time, past the end of the record.
+			 */
+			if (mod_pos > 0 && mod_pos < fmt_pos) {
+				fmt_pos = mod_pos;
+			}
 			if (memchr(&buf[data_pos], '\0',
 				   buf_len - data_pos) == NULL) {
 				goto out_of_data;
